@@ -96,7 +96,9 @@ func (this *Allocator) getPartitionsNodeIds(partitionCount uint, replicationFact
 			nodeIds[i], nodeIds[j] = nodeIds[j], nodeIds[i]
 		})
 
-		partitionsNodeIds[i] = nodeIds[:math.MinInt(len(nodeIds), int(replicationFactor))]
+		n := math.MinInt(len(nodeIds), int(replicationFactor))
+		partitionsNodeIds[i] = make([]uint64, n)
+		copy(partitionsNodeIds[i], nodeIds[:n])
 	}
 
 	return partitionsNodeIds
